@@ -19,7 +19,7 @@ BUDGET = {"quick": 40000, "thorough": 1500000}
 TIME_CAP = {"quick": 70, "thorough": 1500}
 ANCHORS = ["PathSegment.bbox", "Move.bbox", "QuadraticBezier.bbox", "CubicBezier.bbox", "CubicBezier._real_minmax", "Arc.bbox", "Shape.bbox",
            "Subpath.bbox", "Group.union_bbox", "Group.bbox", "GraphicObject.implicit_stroke_width"]
-REQUIRED_MONITORS = ["segment-box", "path-box", "shape-box", "stroke-box", "group-box", "subpath-box"]
+REQUIRED_MONITORS = ["segment-box", "path-box", "shape-box", "shape-box-from-attributes", "stroke-box", "group-box", "subpath-box"]
 
 
 def strata_minimum(tier):
@@ -325,6 +325,30 @@ def _run_case(S, case, ctx):
             return
         if not judge(ctx, got, ref, what, "shape/%s/%s" % (case["shape"]["kind"], "transformed" if tr and m else "plain"), "shape-box"):
             return
+        # independent of the library's decomposition: in its own user space a basic shape's box follows from its attributes alone
+        # (a rect is [x, x+w] x [y, y+h] whatever its corner radii, SVG 2 10.2)
+        sp = case["shape"]
+        an = None
+        if sp["kind"] == "rect" and sp["width"] > 0 and sp["height"] > 0:
+            an = (sp["x"], sp["y"], sp["x"] + sp["width"], sp["y"] + sp["height"])
+        elif sp["kind"] == "circle":
+            an = (sp["cx"] - sp["r"], sp["cy"] - sp["r"], sp["cx"] + sp["r"], sp["cy"] + sp["r"])
+        elif sp["kind"] == "ellipse":
+            an = (sp["cx"] - sp["rx"], sp["cy"] - sp["ry"], sp["cx"] + sp["rx"], sp["cy"] + sp["ry"])
+        elif sp["kind"] == "line":
+            an = (min(sp["x1"], sp["x2"]), min(sp["y1"], sp["y2"]), max(sp["x1"], sp["x2"]), max(sp["y1"], sp["y2"]))
+        elif sp.get("points"):
+            xs, ys = [q[0] for q in sp["points"]], [q[1] for q in sp["points"]]
+            an = (min(xs), min(ys), max(xs), max(ys))
+        if an is not None:
+            ctx.mon("shape-box-from-attributes")
+            try:
+                own = shape.bbox(transformed=False)
+            except Exception as e:
+                ctx.violation("shape-attributes/%s/raises-%s" % (sp["kind"], type(e).__name__), "%r.bbox(transformed=False): %r" % (sp, e), monitor="shape-box-from-attributes")
+                return
+            if not judge(ctx, own, an, "%r.bbox(transformed=False)" % (sp,), "shape-attributes/%s" % sp["kind"], "shape-box-from-attributes"):
+                return
         ctx.mon("stroke-box")
         gots = shape.bbox(transformed=tr, with_stroke=True)
         refs = _grow(ref, case["paint"], case["sw"], m, tr)
